@@ -79,7 +79,7 @@ def Dict.chordAttrsF (d : Dict) : Nat → String → Option (List Attr)
         if c.parent = "" then [] else (d.chordAttrsF f c.parent).getD []
       some (parent ++ c.attributes.map fun a => (d.attr a).getD ⟨"", ⟨0, .unknown⟩⟩)
 
-def Dict.fuel (d : Dict) : Nat := d.chords.length + 2
+def Dict.fuel (d : Dict) : Nat := (d.chords.map (·.1)).eraseDups.length + 2
 
 def Dict.chordAttrs (d : Dict) (n : String) : Option (List Attr) := d.chordAttrsF d.fuel n
 
